@@ -437,7 +437,7 @@ _RIVALS = []
 
 
 @contextlib.contextmanager
-def deadline(seconds=20):
+def deadline(seconds=60):
     """A blocking call that never returns (a lock that is never released, a read
     that waits for ever) cannot be caught by counting steps: an interval timer
     interrupts it and HarnessHang is raised in the main thread.  The budget is
@@ -451,7 +451,7 @@ def deadline(seconds=20):
         return
 
     if _HANGS[0]:
-        seconds = 3  # a hang was already observed in this process: do not wait as long again
+        seconds = 6  # a hang was already observed in this process: do not wait as long again
 
     def on_alarm(signum, frame):
         _HANGS[0] += 1
